@@ -56,6 +56,16 @@ def tcp_floor(repo: Repo, chk: Check, rule: str) -> None:
     chk.ob(rule, Site(cls.mod.rel, cls.qual, cls.node.lineno, "TCPFloor.protocol"), okf and val == 0x07, f"protocol id {val}")
     reg = repo.registry("register_floor")
     chk.ob(rule, Site(cls.mod.rel, cls.qual, cls.node.lineno, "TCPFloor registered"), any(c is cls for c in reg.values()), "TCPFloor is registered with register_floor")
+    # the client recognises the TCP floor with isinstance(floor, TCPFloor): no other floor type may satisfy that test
+    subs = repo.subclasses(cls)
+    chk.ob(rule, Site(cls.mod.rel, cls.qual, cls.node.lineno, "no subclass of TCPFloor"), not subs, "only protocol 0x07 floors are instances of TCPFloor" if not subs else f"{', '.join(c.name for c in subs)} derive(s) from TCPFloor: isinstance(floor, TCPFloor) in _process_ept_map_result accepts such a floor (another protocol) as the TCP port")
+    protos = {}
+    for c in reg.values():
+        fld = c.field("protocol")
+        okf, v = repo.try_fold(fld.default, c.mod) if fld is not None and fld.default is not None else (False, None)
+        protos.setdefault(getattr(v, "value", v), []).append(c.name)
+    dup = {k: v for k, v in protos.items() if len(v) > 1}
+    chk.ob(rule, Site(cls.mod.rel, cls.qual, cls.node.lineno, "floor protocol ids are distinct"), not dup, "one registered class per protocol id" if not dup else f"protocol ids registered twice: {dup}")
 
 
 def selection(repo: Repo, chk: Check, rule: str) -> None:
